@@ -1,0 +1,12 @@
+//go:build verif
+
+// Contracts for package lisperror, read by /verif's VC generator (govc). Comment-only.
+package lisperror
+
+//@ func GetPosition(ast) (r)
+//@   panics never
+//@   pure
+
+//@ func NewLispError(err, ast) (r)
+//@   panics never
+//@   pure
